@@ -25,7 +25,7 @@ CLAIMS = {
  "C02": ("Generated routers (real templates, rendered by the CLI built from /repo for a fixture project, all five engines): (kernel, symbolic) for every route text of up to 2 segments (literal or {param}) with up to three leading slashes, doubled inner slashes and a trailing slash, parameter names of a letter optionally followed by a letter, digit, hyphen or underscore, "
          "the generated toGinUrl/toEchoUrl/toMuxUrl/toChiUrl/toFiberUrl register exactly the path the spec documents (every slash run collapsed, leading slash; ':x' <-> '{x}', no '{name}' left unconverted on gin/echo/fiber); (corpus) the registration table of each engine is in bijection with the fixture's 7 annotated methods (hidden one included) at the documented verb and path, "
          "and a valid request to each reaches that method of that controller and no other.",
-         "Bounds as coded in harness-g/verifgen/cross/zz_verif_c02.go, zz_verif_routes.go. The project dimension is a fixed fixture (fixtures/stageg/project): Handlebars rendering cannot be executed symbolically. The generated code runs against stand-in framework packages (fixtures/stageg/stubs) that implement the documented behaviour of the accessors the templates call; the frameworks' own request matching is outside.",
+         "Bounds as coded in harness-g/verifgen/cross/zz_verif_c02.go, zz_verif_routes.go. The project dimension is a fixed fixture (fixtures/stageg/project): the generated code of that fixture is what runs here (the rendering itself, over varying projects, is C09's subject). The generated code runs against stand-in framework packages (fixtures/stageg/stubs) that implement the documented behaviour of the accessors the templates call; the frameworks' own request matching is outside.",
          "DESIGN.md 4 (C02, stage G)"),
  "C03": ("For every engine, every fixture route and every behaviour of the user's authorization callback (approve / refuse / refuse with custom payload per call, symbolic), with a valid or an all-parameters-missing request: the callback is asked exactly the checks of the route's effective alternatives (own, else controller's, else configured default) in order, "
          "the controller is invoked only after some alternative was approved in full, a refused request never reaches the controller and is answered with the last refusal's status (and custom payload); plus the generated authorize() on arbitrary lists of up to 2 alternatives x 2 checks; the same on a second generated project without default security whose controller carries no @Security (a method's own @Security still guards it, the unsecured sibling is served without any check).",
